@@ -94,6 +94,9 @@ type Rig struct {
 	MaxConn uint32
 	MaxReq  uint32
 	Limit   time.Duration // watchdog for calls into the pool
+	// RetryCtx, when set, is the request context the next Lease uses (then cleared): the context of an attempt
+	// that has ended, as the proxy's retry passes it
+	RetryCtx context.Context
 }
 
 // NewRig builds cluster info, host and pool exactly as the cluster manager does (registered pool
@@ -213,6 +216,10 @@ func (s *Stream) OnDestroyStream() {
 	s.mu.Unlock()
 }
 
+// Ctx is the request context the stream was created with (the proxy keeps ONE context per downstream request and
+// hands it to the pool again for every retry attempt).
+func (s *Stream) Ctx() context.Context { return s.ctx }
+
 // State returns a snapshot.
 func (s *Stream) State() StreamState {
 	s.mu.Lock()
@@ -320,7 +327,18 @@ type LeaseResult struct {
 // stream listener, send the request (headers only, end of stream).
 // initWait bounds the CheckAndInit polling of the multiplex pool.
 func (r *Rig) Lease(token string, initWait time.Duration) LeaseResult {
-	ctx := codec.NewCtx()
+	ctx := r.RetryCtx
+	r.RetryCtx = nil
+	return r.LeaseCtx(token, initWait, ctx)
+}
+
+// LeaseCtx is Lease with the request context given: nil for a fresh request, or the context of an attempt that has
+// ended - a retry attempt: the proxy passes the downstream request's context again, so the pool meets the pooled
+// per-request objects (client stream, buffers) of the earlier attempt.
+func (r *Rig) LeaseCtx(token string, initWait time.Duration, ctx context.Context) LeaseResult {
+	if ctx == nil {
+		ctx = codec.NewCtx()
+	}
 	st := &Stream{Token: token, ctx: ctx, notify: make(chan struct{})}
 	var res LeaseResult
 	if r.Kind == Mux {
